@@ -794,10 +794,29 @@ def value_getattr(I, a, name):
     if name == 'repeat':
         def repeat(I, r, args, kw):
             k = args[0]
-            if r.ndim != 1 or is_sym(k):
-                raise Unsupported('repeat')
-            I.ctx.trust('numpy.repeat: out[i] = a[i // k]')
-            return SArr((sym.mul(r.shape[0], k),), lambda q: r.get(sym.floordiv(q[0], k)), r.kind, tag='repeat')
+            ax = kw.get('axis', args[1] if len(args) > 1 else None)
+            if ax is None:
+                if r.ndim != 1:
+                    raise Unsupported('repeat of a flattened n-d array')
+                ax = 0
+            if is_sym(ax):
+                raise Unsupported('repeat with symbolic axis')
+            ax = ax % r.ndim
+            n = r.shape[ax]
+            snap, imap = r.buf.get, r.imap          # values as they are now (repeat returns a fresh array)
+            src = lambda q: snap(imap(tuple(q)))
+            if not is_sym(n) and n == 1:
+                # an axis of length 1 repeated k times: every entry along it is the single source entry
+                I.ctx.trust('numpy.repeat along an axis of length 1: out[.., i, ..] = a[.., 0, ..], length k')
+                if is_sym(k) and I.ctx.branch(sym.lt(k, 0)):
+                    raise PyExc('ValueError')
+                shp = tuple(k if d == ax else s for d, s in enumerate(r.shape))
+                return SArr(shp, lambda q: src(tuple(0 if d == ax else x for d, x in enumerate(q))), r.kind, tag='repeat')
+            if is_sym(k):
+                raise Unsupported('repeat with symbolic count along an axis longer than 1')
+            I.ctx.trust('numpy.repeat: out[i] = a[i // k] along the axis')
+            shp = tuple(sym.mul(s, k) if d == ax else s for d, s in enumerate(r.shape))
+            return SArr(shp, lambda q: src(tuple(sym.floordiv(x, k) if d == ax else x for d, x in enumerate(q))), r.kind, tag='repeat')
         return meth(repeat)
     if name == 'reshape':
         def reshape(I, r, args, kw):
